@@ -1,3 +1,4 @@
+//@ requires base errors iter strs
 // ---- std::path shim at component level (L2 units: clean, relative, mash, trim_*, abs)
 // A path is seen as the component sequence Path::components() yields.
 // ASSUMED[path-components]: Path::components() normalises repeated separators, interior `.` and a trailing separator away;
@@ -24,6 +25,7 @@ pub type Path = PathBuf;   // R1
 // ASSUMED[pathbuf-ops]: PathBuf::push(c) for a single component c: an absolute component replaces the path, `.` pushed onto a
 // non-empty path is normalised away by components(), anything else is appended.  pop() removes the last component unless the
 // path is empty or just the root.
+pub open spec fn same_path(a: &PathBuf, b: &PathBuf) -> bool { a.comps() == b.comps() && a.pstr() == b.pstr() && a.utf8_ok() == b.utf8_ok() && a.canonical() == b.canonical() }
 pub open spec fn push_spec(s: Comps, c: Component) -> Comps {
     if c == Component::RootDir { seq![Component::RootDir] }
     else if c == Component::CurDir && s.len() > 0 { s }
@@ -49,17 +51,17 @@ impl PathBuf {
     #[verifier::external_body]
     pub fn new() -> (r: PathBuf) ensures r.comps() == Seq::<Component>::empty(), r.canonical() { unimplemented!() }
     #[verifier::external_body]
-    pub fn clone(&self) -> (r: PathBuf) ensures r.comps() == self.comps(), r.canonical() == self.canonical() { unimplemented!() }
+    pub fn clone(&self) -> (r: PathBuf) ensures same_path(&r, self) { unimplemented!() }
     #[verifier::external_body]
-    pub fn to_path_buf(&self) -> (r: PathBuf) ensures r.comps() == self.comps(), r.canonical() == self.canonical() { unimplemented!() }
+    pub fn to_path_buf(&self) -> (r: PathBuf) ensures same_path(&r, self) { unimplemented!() }
     #[verifier::external_body]
-    pub fn to_owned(&self) -> (r: PathBuf) ensures r.comps() == self.comps(), r.canonical() == self.canonical() { unimplemented!() }
+    pub fn to_owned(&self) -> (r: PathBuf) ensures same_path(&r, self) { unimplemented!() }
     #[verifier::external_body]
-    pub fn as_ref(&self) -> (r: &PathBuf) ensures r.comps() == self.comps() { unimplemented!() }
+    pub fn as_ref(&self) -> (r: &PathBuf) ensures same_path(r, self) { unimplemented!() }
     #[verifier::external_body]
-    pub fn as_path(&self) -> (r: &PathBuf) ensures r.comps() == self.comps() { unimplemented!() }
+    pub fn as_path(&self) -> (r: &PathBuf) ensures same_path(r, self) { unimplemented!() }
     #[verifier::external_body]
-    pub fn into(self) -> (r: PathBuf) ensures r.comps() == self.comps() { unimplemented!() }
+    pub fn into(self) -> (r: PathBuf) ensures same_path(&r, &self) { unimplemented!() }
     #[verifier::external_body]
     pub fn components(&self) -> (r: Components) ensures r.rest() == self.comps(), std_comps(self.comps()) { unimplemented!() }
     #[verifier::external_body]
@@ -94,7 +96,7 @@ impl PathBuf {
 impl DeIter<Component> {
     // Components::as_path(): the path made of the components not yet consumed
     #[verifier::external_body]
-    pub fn as_path(&self) -> (r: &PathBuf) ensures r.comps() == self.rest() { unimplemented!() }
+    pub fn as_path(&self) -> (r: &PathBuf) ensures r.comps() == self.rest(), r.canonical() { unimplemented!() }
 }
 // R4: `comps.iter().collect::<PathBuf>()` / `path.components().collect::<PathBuf>()`: pushes each component in order
 pub open spec fn collect_spec(acc: Comps, s: Comps) -> Comps decreases s.len() {
@@ -102,3 +104,19 @@ pub open spec fn collect_spec(acc: Comps, s: Comps) -> Comps decreases s.len() {
 }
 #[verifier::external_body]
 pub fn collect_path(v: &Vec<Component>) -> (r: PathBuf) ensures r.comps() == collect_spec(Seq::empty(), v@) { unimplemented!() }
+
+// ---- string view of a path (used by the string-level helpers trim_prefix / trim_suffix / concat / has* / ext)
+// ASSUMED[path-str]: a PathBuf built from a string holds exactly that string; to_str() is Some (the same string) iff the path is
+// valid UTF-8; comps() is std's parse of that string (parse is std's, uninterpreted here)
+pub uninterp spec fn parse(s: Seq<char>) -> Comps;
+impl PathBuf {
+    pub uninterp spec fn pstr(&self) -> Seq<char>;
+    pub uninterp spec fn utf8_ok(&self) -> bool;
+    #[verifier::external_body]
+    pub proof fn ax_parse(&self) ensures self.utf8_ok() ==> self.comps() == parse(self.pstr()) { }
+    #[verifier::external_body]
+    pub fn to_str(&self) -> (r: Option<&Str>) ensures r is Some == self.utf8_ok(), r is Some ==> r->Some_0@ == self.pstr() { unimplemented!() }
+    // R1: PathBuf::from(&str / String)
+    #[verifier::external_body]
+    pub fn from_s(s: &Str) -> (r: PathBuf) ensures r.pstr() == s@, r.utf8_ok(), r.comps() == parse(s@) { unimplemented!() }
+}
